@@ -857,6 +857,19 @@ pub async fn drive(case: &Case) -> Outcome {
     }
     let last_fault = g.last_fault_at_ms;
     let rtt_ms = (case.net.latency_ms[0] + case.net.latency_ms[1]) as u64;
+    // One failure mode gets a site of its own, so that it can be listed without hiding any other stall: congestion
+    // collapse on a slow link. During the last 30 virtual seconds before the cap (300 s; the whole workload needs at
+    // most ~105 s of link time at the slowest rate drawn) an endpoint still offers a bottleneck link more than half
+    // of what it can carry, i.e. it is flooding it with retransmissions long after the applications handed over
+    // their last byte. A stream that merely stalls (nothing but an occasional probe is sent) never shows this.
+    let collapse = {
+        let from = completed_at.saturating_sub(30_000);
+        let saturated = |dir: usize| {
+            let offered: u64 = g.log.iter().filter(|e| e.dir == dir && e.at_ms >= from).map(|e| e.len as u64).sum();
+            case.net.bandwidth > 0 && completed_at >= 120_000 && offered >= case.net.bandwidth as u64 * 30_000 / 2
+        };
+        saturated(0) || saturated(1)
+    };
     match case.profile {
         Profile::Bounded => {
             if l.handshaked_at[0].is_none() || l.handshaked_at[1].is_none() {
@@ -864,20 +877,7 @@ pub async fn drive(case: &Case) -> Outcome {
             } else if !completed || !pending.is_empty() {
                 let hs = l.handshaked_at;
                 let clause = if hs[0].is_none() || hs[1].is_none() { "liveness-handshake" } else { "liveness-transfer" };
-                // One failure mode gets a site of its own, so that it can be listed without hiding any other stall:
-                // congestion collapse on a slow link. During the last 30 virtual seconds before the cap (300 s; the whole
-                // workload needs at most ~105 s of link time at the slowest rate drawn) an endpoint still offers a
-                // bottleneck link more than half of what it can carry, i.e. it is flooding it with retransmissions long
-                // after the applications handed over their last byte. A stream that merely stalls (nothing but an
-                // occasional probe is sent) never shows this.
-                let site = {
-                    let from = completed_at.saturating_sub(30_000);
-                    let saturated = |dir: usize| {
-                        let offered: u64 = g.log.iter().filter(|e| e.dir == dir && e.at_ms >= from).map(|e| e.len as u64).sum();
-                        case.net.bandwidth > 0 && completed_at >= 120_000 && offered >= case.net.bandwidth as u64 * 30_000 / 2
-                    };
-                    if !pending.is_empty() && (saturated(0) || saturated(1)) { "bottleneck-saturated-at-cap" } else { "" }
-                };
+                let site = if !pending.is_empty() && collapse { "bottleneck-saturated-at-cap" } else { "" };
                 out.violate(clause, site, format!("bounded faults (last fired at {last_fault} ms) but at {completed_at} ms still pending: {pending:?}; failed: {failed:?}; handshaked_at {hs:?}"), completed_at);
             } else if !failed.is_empty() {
                 out.violate("liveness-transfer", "failed", format!("bounded faults but operations failed: {failed:?}"), completed_at);
@@ -902,7 +902,7 @@ pub async fn drive(case: &Case) -> Outcome {
                     let who = if i == 0 { "client" } else { "server" };
                     match &l.terminated_at[i] {
                         None => {
-                            let phase = if l.handshaked_at[i].is_some() { "after-handshake" } else { "before-handshake" };
+                            let phase = if collapse { "bottleneck-saturated-at-cap" } else if l.handshaked_at[i].is_some() { "after-handshake" } else { "before-handshake" };
                             out.violate("bounded-failure", format!("conn-never-terminated:{phase}"), format!("{who}: at the cap ({completed_at} ms) the connection has not terminated and {mine:?} are still pending (idle timeouts {}/{} ms)", case.client.idle_ms, case.server.idle_ms), completed_at);
                         }
                         Some((t, kind)) => {
